@@ -79,7 +79,9 @@ def bptk_factory(start=1.0, stop=12.0, dt=1.0, shared_model=None, variant=0):
     def factory():
         b = bptk()
         m = shared_model if shared_model is not None else make_model(start, stop, dt, variant=variant)
-        b.register_model(m, scenario_manager=MG, scenario={"base": {}, "alt": {"constants": {"rate": 0.25}}})
+        b.register_model(m, scenario_manager=MG, scenario={"base": {}, "alt": {"constants": {"rate": 0.25}},
+                                                           # a scenario whose run specs differ from its model's
+                                                           "fine": {"runspecs": {"dt": dt / 2.0}, "constants": {"cap": 25.0}}})
         return b
     return factory
 
